@@ -32,12 +32,16 @@ type family struct {
 	Multi bool
 	SRIH  bool
 	MTB   uint32 // protocol MaxTraceableBlocks (0 = default)
+	HF    map[string]uint32 // hardfork activation heights (nil = all from genesis)
 }
 
 func (f family) proto(c *config.Blockchain) {
 	if f.MTB != 0 {
 		c.MaxTraceableBlocks = f.MTB
 		c.MaxValidUntilBlockIncrement = 100
+	}
+	if f.HF != nil {
+		c.Hardforks = f.HF
 	}
 }
 
@@ -565,6 +569,9 @@ func TestCheck(t *testing.T) {
 		{Name: "single-srih", SRIH: true, MTB: 6},
 		{Name: "multi", Multi: true, MTB: 8},
 		{Name: "multi-srih", Multi: true, SRIH: true, MTB: 8},
+		// hardforks activating INSIDE the explored histories (preamble = heights 1..3): natives are
+		// updated/activated at these heights and a restarted node re-derives which ones are active
+		{Name: "single-hf", MTB: 6, HF: map[string]uint32{"Aspidochelone": 0, "Basilisk": 0, "Cockatrice": 0, "Domovoi": 0, "Echidna": 4, "Faun": 5, "Gorgon": 6}},
 	}
 	depth := 2
 	pads := vk.Pick(r, []int{0, 1, 2}, []int{0, 1, 2, 3, 5})
@@ -606,7 +613,7 @@ func TestCheck(t *testing.T) {
 			}
 			// plan A: the full alphabet, depth 2, all variants of the tier
 			scs = append(scs, &scenario{r: r, vs: variants(r, 2), fam: f, pad: p, tpls: chainx.TplByName(tplNames(r)...), depth: 2, tree: map[histKey]*treeNode{}})
-			if !f.Multi {
+			if !f.Multi && (f.HF == nil || r.Thorough()) {
 				// plan C: delete-then-recreate across blocks (values flipping back and forth,
 				// unrelated blocks in between), depth 5, on the trie modes with reference
 				// counting / garbage collection and a restart-heavy archival control
@@ -635,7 +642,7 @@ func TestCheck(t *testing.T) {
 				}
 				scs = append(scs, sc)
 			}
-			if !f.Multi {
+			if !f.Multi && (f.HF == nil || r.Thorough()) {
 				// plan F: an oracle request answered k blocks later, k = 0..MaxTraceableBlocks+2 (the
 				// original transaction gets older than what pruning nodes keep), all variants
 				tp := chainx.TplByName("designate-oracle", "oracle-request", "empty", "oracle-respond")
@@ -792,7 +799,7 @@ func TestCheck(t *testing.T) {
 		"distinct_state_roots":          roots.Len(),
 		"plans":                         "A: full alphabet of the tier, depth 2, all variants; B (thorough only): quick alphabet, depth 3, basic variants; C (single families): value flip/delete/re-create alphabet, depth 5, pruning/GC/latest-state and restart variants; D (single families): Policy whitelisted-method fee set / set again / removed / used, depth 4, same variants; F (single families): oracle request answered 0..MaxTraceableBlocks+2 blocks later, all variants; E (single families): candidate life cycle toggles (vote / registration) + idle blocks, depth 7 (<= 2 idle) / 8, restart variants",
 		"block_alphabet":                tplNames(r),
-		"families":                      []string{"single", "single-srih", "multi", "multi-srih"},
+		"families":                      []string{"single", "single-srih", "multi", "multi-srih", "single-hf (Echidna@4, Faun@5, Gorgon@6)"},
 		"preamble_pads":                 pads,
 		"variants":                      names,
 		"variant_count":                 len(vs),
